@@ -2206,4 +2206,255 @@ theorem fix_rawRT_eq_project (o : ExportOpts) (m : VMap) (h : MapOK1 m) :
   cases hmin : o.minimal <;> simp [rawRT, project, hmin]
 
 
+
+
+/-! ### sortedness -/
+
+structure LeOK {α} (le : α → α → Bool) : Prop where
+  total : ∀ a b, le a b = true ∨ le b a = true
+  trans : ∀ a b c, le a b = true → le b c = true → le a c = true
+
+theorem insertBy_sorted {α} {le : α → α → Bool} (ok : LeOK le) (x : α) (l : List α)
+    (h : l.Pairwise (fun a b => le a b = true)) : (insertBy le x l).Pairwise (fun a b => le a b = true) := by
+  induction l with
+  | nil => simp [insertBy]
+  | cons y ys ih =>
+    simp only [insertBy]
+    have hy := List.pairwise_cons.mp h
+    split
+    · rename_i hxy
+      refine List.pairwise_cons.mpr ⟨?_, h⟩
+      intro z hz
+      simp only [List.mem_cons] at hz
+      rcases hz with rfl | hz
+      · exact hxy
+      · exact ok.trans _ _ _ hxy (hy.1 z hz)
+    · rename_i hxy
+      have hyx : le y x = true := by
+        rcases ok.total x y with h1 | h1
+        · exact absurd h1 hxy
+        · exact h1
+      refine List.pairwise_cons.mpr ⟨?_, ih hy.2⟩
+      intro z hz
+      have := (insertBy_perm le x ys).mem_iff.mp hz
+      simp only [List.mem_cons] at this
+      rcases this with rfl | hz'
+      · exact hyx
+      · exact hy.1 z hz'
+
+theorem isort_sorted {α} {le : α → α → Bool} (ok : LeOK le) (l : List α) :
+    (isort le l).Pairwise (fun a b => le a b = true) := by
+  induction l with
+  | nil => simp [isort]
+  | cons x xs ih => exact insertBy_sorted ok x _ ih
+
+theorem isort_of_sorted {α} (le : α → α → Bool) (l : List α) (h : l.Pairwise (fun a b => le a b = true)) :
+    isort le l = l := by
+  induction l with
+  | nil => rfl
+  | cons x xs ih =>
+    have hx := List.pairwise_cons.mp h
+    simp only [isort, ih hx.2]
+    cases xs with
+    | nil => rfl
+    | cons y ys => simp [insertBy, hx.1 y (by simp)]
+
+theorem isort_idem {α} {le : α → α → Bool} (ok : LeOK le) (l : List α) : isort le (isort le l) = isort le l :=
+  isort_of_sorted le _ (isort_sorted ok l)
+
+theorem strLe_total : ∀ a b : Str, strLe a b = true ∨ strLe b a = true
+  | [], _ => by simp [strLe]
+  | _ :: _, [] => by simp [strLe]
+  | a :: as, b :: bs => by
+    simp only [strLe]
+    by_cases h1 : a.toNat < b.toNat
+    · simp [h1]
+    · by_cases h2 : b.toNat < a.toNat
+      · simp [h2]
+      · simp only [h1, h2, if_false]
+        exact strLe_total as bs
+
+theorem strLe_trans : ∀ a b c : Str, strLe a b = true → strLe b c = true → strLe a c = true
+  | [], _, _, _, _ => by simp [strLe]
+  | _ :: _, [], _, h, _ => by simp [strLe] at h
+  | _ :: _, _ :: _, [], _, h => by simp [strLe] at h
+  | a :: as, b :: bs, c :: cs, h1, h2 => by
+    simp only [strLe] at h1 h2 ⊢
+    by_cases hab : a.toNat < b.toNat
+    · by_cases hbc : b.toNat < c.toNat
+      · have : a.toNat < c.toNat := by omega
+        simp [this]
+      · by_cases hcb : c.toNat < b.toNat
+        · simp [hbc, hcb] at h2
+        · have : a.toNat < c.toNat := by omega
+          simp [this]
+    · by_cases hba : b.toNat < a.toNat
+      · simp [hab, hba] at h1
+      · simp only [hab, hba, if_false] at h1
+        have hEq : a.toNat = b.toNat := by omega
+        by_cases hbc : b.toNat < c.toNat
+        · have : a.toNat < c.toNat := by omega
+          simp [this]
+        · by_cases hcb : c.toNat < b.toNat
+          · simp [hbc, hcb] at h2
+          · simp only [hbc, hcb, if_false] at h2
+            have h3 : ¬ a.toNat < c.toNat := by omega
+            have h4 : ¬ c.toNat < a.toNat := by omega
+            simp only [h3, h4, if_false]
+            exact strLe_trans as bs cs h1 h2
+
+theorem keyLe_ok : LeOK keyLe :=
+  ⟨fun a b => strLe_total a.1 b.1, fun a b c => strLe_trans a.1 b.1 c.1⟩
+
+theorem intLe_ok : LeOK intLe :=
+  ⟨fun a b => by simp only [intLe, decide_eq_true_eq]; omega,
+   fun a b c => by simp only [intLe, decide_eq_true_eq]; omega⟩
+
+theorem fixLe_ok : LeOK fixLe :=
+  ⟨fun a b => by simp only [fixLe, decide_eq_true_eq]; omega,
+   fun a b c => by simp only [fixLe, decide_eq_true_eq]; omega⟩
+
+
+
+
+/-! ### the second export -/
+
+theorem expName_normInst (i : Option Str) (n : Str) : expName (normInst i) n = expName i n := by
+  cases i with
+  | none => rfl
+  | some s => by_cases h : s.isEmpty = true <;> simp [normInst, expName, h]
+
+theorem exportOut_projOut (x : Out) : exportOut (projOut x) = exportOut x := by
+  rw [projOut_eq]
+  simp [exportOut, expName_normInst]
+
+theorem exportSolid_projSolid (mb w : Bool) (s : Solid) (h : SolidOK1 s = true) :
+    exportSolid mb w (projSolid mb w s) = exportSolid mb w s := by
+  rw [projSolid_eq mb w s h]
+  cases w <;> simp [exportSolid, solidRT, solidBlock, solidEditor, isort_idem intLe_ok]
+
+theorem go_keeps (k v : Str) (ks : List (Str × Str)) (kv : Str × Str) (hm : kv ∈ ks)
+    (hne : lower kv.1 ≠ lower k) : kv ∈ entSetKey.go k v ks := by
+  induction ks with
+  | nil => simp at hm
+  | cons a r ih =>
+    simp only [entSetKey.go]
+    simp only [List.mem_cons] at hm
+    split
+    · rename_i heq
+      rcases hm with rfl | hm
+      · exact absurd (by simpa using heq) hne
+      · simp [hm]
+    · rcases hm with rfl | hm
+      · simp
+      · simp [ih hm]
+
+theorem entSetKey_keeps (ks : List (Str × Str)) (k v : Str) (kv : Str × Str) (hm : kv ∈ ks)
+    (hne : lower kv.1 ≠ lower k) : kv ∈ entSetKey ks k v := by
+  unfold entSetKey
+  split
+  · exact go_keeps k v ks kv hm hne
+  · exact List.mem_append_left _ hm
+
+/-- the editor fields of an entity that a second export writes again unchanged -/
+def EntFP (w : Bool) (e : Ent) : Prop := if w then e.hidden = false else e.logicalPos ≠ []
+
+theorem exportEnt_projEnt (mb w : Bool) (groups : List Group) (e : Ent) (h : EntOK1 e) (hf : EntFP w e) :
+    exportEnt mb w groups (projEnt mb w e) = exportEnt mb w groups e := by
+  have hs : (e.solids.map (projSolid mb w)).map (exportSolid mb w) = e.solids.map (exportSolid mb w) := by
+    rw [List.map_map]
+    exact List.map_congr_left (fun s hs => exportSolid_projSolid mb w s (h.solids s hs))
+  have ho : (e.outputs.map projOut).map exportOut = e.outputs.map exportOut := by
+    rw [List.map_map]
+    exact List.map_congr_left (fun s _ => exportOut_projOut s)
+  have hoe : (e.outputs.map projOut).isEmpty = e.outputs.isEmpty := by cases e.outputs <;> rfl
+  cases w with
+  | true =>
+    simp only [EntFP, if_true] at hf
+    simp [exportEnt, projEnt, entBlock, entKids, entEditor, hs, ho, hoe, hf, isort_idem keyLe_ok, isort_idem fixLe_ok]
+  | false =>
+    simp only [EntFP, Bool.false_eq_true, if_false] at hf
+    have hl : e.logicalPos.isEmpty = false := by cases hlp : e.logicalPos <;> simp_all
+    simp [exportEnt, projEnt, entBlock, entKids, entEditor, hs, ho, hoe, hl, isort_idem keyLe_ok, isort_idem fixLe_ok,
+      isort_idem intLe_ok]
+
+theorem spawnForExport_project (o : ExportOpts) (m : VMap) (h : MapOK1 m) :
+    spawnForExport { o with incVersion := false } (project o m) = projEnt o.multiblend true (spawnForExport o m) := by
+  have hsp := entOK1_spawnForExport o m h.spawn
+  have hd := keysDistinct_isort hsp.keysDistinct
+  have hps : (project o m).spawn = projEnt o.multiblend true (spawnForExport o m) := by
+    cases hmin : o.minimal <;> simp [project, hmin]
+  have hver : exportedVer { o with incVersion := false } (project o m) = exportedVer o m := by
+    cases hmin : o.minimal <;> simp [exportedVer, project, hmin]
+  have hkeys : (projEnt o.multiblend true (spawnForExport o m)).keys = isort keyLe (spawnForExport o m).keys := rfl
+  -- the mapversion and classname entries are already there
+  obtain ⟨kv1, hm1, hk1, hv1⟩ := entSetKey_has m.spawn.keys (lit "mapversion") (showInt (exportedVer o m))
+  have hm1' : kv1 ∈ (spawnForExport o m).keys := by
+    simp only [spawnForExport]
+    exact entSetKey_keeps _ _ _ kv1 hm1 (by rw [hk1]; decide)
+  obtain ⟨kv2, hm2, hk2, hv2⟩ := entSetKey_has
+    (entSetKey m.spawn.keys (lit "mapversion") (showInt (exportedVer o m))) (lit "classname") (lit "worldspawn")
+  have e1 : entSetKey (isort keyLe (spawnForExport o m).keys) (lit "mapversion") (showInt (exportedVer o m))
+      = isort keyLe (spawnForExport o m).keys :=
+    entSetKey_idem _ _ _ hd ⟨kv1, (mem_isort _ _ _).mpr hm1', hk1, hv1⟩
+  have e2 := spawn_classname_idem o m h.spawn
+  have step : ∀ (P : Ent) (ks : List (Str × Str)), ks = P.keys → ({ P with keys := ks } : Ent) = P := by
+    intro P ks h1
+    rw [h1]
+  have lhs : spawnForExport { o with incVersion := false } (project o m)
+      = { (project o m).spawn with keys := (spawnForExport { o with incVersion := false } (project o m)).keys } := rfl
+  have hk : (spawnForExport { o with incVersion := false } (project o m)).keys
+      = (projEnt o.multiblend true (spawnForExport o m)).keys := by
+    show entSetKey (entSetKey (project o m).spawn.keys (lit "mapversion")
+      (showInt (exportedVer { o with incVersion := false } (project o m)))) (lit "classname") (lit "worldspawn") = _
+    rw [hver, hps, hkeys, e1, e2]
+  rw [lhs, hk, hps]
+
+theorem exportTree_project (o : ExportOpts) (m : VMap) (h : MapOK1 m)
+    (hl : ∀ e ∈ m.ents, e.logicalPos ≠ []) :
+    exportTree { o with incVersion := false } (project o m) = exportTree o m := by
+  have hsp := entOK1_spawnForExport o m h.spawn
+  have hw : exportEnt o.multiblend true m.groups (spawnForExport { o with incVersion := false } (project o m))
+      = exportEnt o.multiblend true m.groups (spawnForExport o m) := by
+    rw [spawnForExport_project o m h]
+    exact exportEnt_projEnt _ _ _ _ hsp (by simp only [EntFP, if_true]; exact h.spawnVisible)
+  have he : (m.ents.map (projEnt o.multiblend false)).map (exportEnt o.multiblend false [])
+      = m.ents.map (exportEnt o.multiblend false []) := by
+    rw [List.map_map]
+    exact List.map_congr_left (fun e he => exportEnt_projEnt _ _ _ e (h.ents e he)
+      (by simp only [EntFP, Bool.false_eq_true, if_false]; exact hl e he))
+  have hver : exportedVer { o with incVersion := false } (project o m) = exportedVer o m := by
+    cases hmin : o.minimal <;> simp [exportedVer, project, hmin]
+  have hgroups : (project o m).groups = m.groups := by cases hmin : o.minimal <;> simp [project, hmin]
+  have hents : (project o m).ents = m.ents.map (projEnt o.multiblend false) := by
+    cases hmin : o.minimal <;> simp [project, hmin]
+  have hvis : (project o m).vis = m.vis := by cases hmin : o.minimal <;> simp [project, hmin]
+  have hq : (project o m).quickhide = if m.quickhide > 0 then m.quickhide else 0 := by
+    cases hmin : o.minimal <;> simp [project, hmin]
+  have hverK : verKids { o with incVersion := false } (project o m) = verKids o m := by
+    simp only [verKids, hver]
+    cases hmin : o.minimal <;> simp [project, hmin, h.format]
+  unfold exportTree
+  simp only [hgroups, hents, hvis, hverK]
+  rw [hw, he]
+  have hqd : decide ((project o m).quickhide > 0) = decide (m.quickhide > 0) := by
+    rw [hq]; by_cases hq0 : m.quickhide > 0 <;> simp [hq0]
+  rw [hqd]
+  cases hmin : o.minimal with
+  | true =>
+    by_cases hq0 : m.quickhide > 0
+    · simp [rootOf, hq0, hq]
+    · simp [rootOf, hq0]
+  | false =>
+    have hvk : viewKids (project o m) = viewKids m := by simp [viewKids, project, hmin]
+    have hck : camKids (project o m) = camKids m := by
+      cases hc : m.cams <;> simp [camKids, project, hmin, hc]
+    have hok : cordonKids (project o m) = cordonKids m := by
+      cases hc : m.cordons <;> simp [cordonKids, project, hmin, hc]
+    rw [hvk, hck, hok]
+    by_cases hq0 : m.quickhide > 0
+    · simp [rootOf, hq0, hq]
+    · simp [rootOf, hq0]
+
+
 end C06
